@@ -57,7 +57,7 @@ class World:
             eng.clock += 2.0
             return eng.clock
 
-        time_shim = types.SimpleNamespace(monotonic=lambda: eng.clock, time=tick,
+        time_shim = types.SimpleNamespace(monotonic=lambda: 0.0, time=tick,
                                           sleep=lambda s: E.ENG.op("sleep"))
         # the stdlib Queue implementation is executed as it is; only its module globals are redirected
         mpq.threading = E.make_threading_shim(yielding_locks=False)
@@ -245,6 +245,23 @@ def fut_obs(f):
     return "D"
 
 
+def fut_canon(f, spec):
+    """the model's name of a future's state (Exec.Fut)"""
+    o = fut_obs(f)
+    if not o.startswith("E:"):
+        return o
+    t = o[2:]
+    if t == "ShutdownExecutorError":
+        return "Es"
+    if t == "TerminatedWorkerError":
+        return "Et"
+    if t == "BrokenProcessPool":
+        return "Eb"
+    if spec.get("args", "ok") in ("unpicklable", "toolarge"):
+        return "Ef"
+    return "Ew"
+
+
 def run_scenario(scen, chooser_factory, max_steps=4000, observe=True):
     """run one scenario under one schedule; returns a JSON-able record.  Call in a forked child."""
     gc.disable()
@@ -261,6 +278,7 @@ def run_scenario(scen, chooser_factory, max_steps=4000, observe=True):
     H = Holder()
     H.ex = None
     H.futs = {}
+    H.by_wid = []
     H.api = []              # (user, op index, op, outcome)
     H.cancel_ok = {}
     tasks = scen.get("tasks", [])
@@ -275,72 +293,72 @@ def run_scenario(scen, chooser_factory, max_steps=4000, observe=True):
             kw["initargs"] = (tuple(init), "tag0")
         return kw
 
+    def do_op(ui, op):
+        """one script operation; every local reference to the executor dies when this returns"""
+        kind = op[0]
+        out = "ok"
+        try:
+            if kind == "create":
+                H.ex = PE.ProcessPoolExecutor(max_workers=scen["max_workers"], context=world.ctx,
+                                              timeout=scen.get("timeout"), **kwargs())
+            elif kind == "reusable":
+                a = dict(op[1])
+                kw = kwargs()
+                if a.pop("newinit", False):
+                    kw = {"initializer": simtasks.initializer, "initargs": ((), "tag1")}
+                ex = RE.get_reusable_executor(max_workers=a.get("max_workers"), timeout=a.get("timeout", 10),
+                                              kill_workers=a.get("kill_workers", False),
+                                              reuse=a.get("reuse", "auto"), **kw)
+                H.ex = ex
+                out = f"id={ex.executor_id},mw={ex._max_workers},nproc={len(ex._processes)}," \
+                      f"shutdown={ex._flags.shutdown},broken={ex._flags.broken is not None}"
+            elif kind == "submit":
+                k = op[1]
+                ex = H.ex
+                if ex is None:
+                    out = "noexec"
+                else:
+                    spec = tasks[k]
+                    f = ex.submit(simtasks.task, k, spec, simtasks.make_arg(spec.get("args", "ok")))
+                    cb = spec.get("cb")
+                    if cb:
+                        f.add_done_callback(simtasks.cb_raise if cb == "raise" else simtasks.cb_ok)
+                    H.futs[k] = f
+                    H.by_wid.append((k, f))
+            elif kind == "cancel":
+                f = H.futs.get(op[1])
+                if f is None:
+                    out = "nofut"
+                else:
+                    r = f.cancel()
+                    H.cancel_ok[op[1]] = H.cancel_ok.get(op[1], False) or r
+                    out = f"cancel={r}"
+            elif kind == "shutdown":
+                ex = H.ex
+                if ex is None:
+                    out = "noexec"
+                else:
+                    ex.shutdown(wait=op[1], kill_workers=op[2])
+            elif kind == "drop":
+                H.ex = None
+            elif kind == "pyexit":
+                PE._python_exit()
+            else:
+                raise RuntimeError("unknown script op " + kind)
+        except E.ActorKilled:
+            raise
+        except BaseException as e:
+            out = "raise:" + type(e).__name__
+            if any(e is i["flags"].broken for i in world.executors):
+                out += ":flag"
+        return out
+
     def user(ui, script):
         def body():
             for oi, op in enumerate(script):
-                kind = op[0]
-                E.ENG.op("api", None, f"{kind}")
-                out = "ok"
-                try:
-                    if kind == "create":
-                        H.ex = PE.ProcessPoolExecutor(max_workers=scen["max_workers"], context=world.ctx,
-                                                      timeout=scen.get("timeout"), **kwargs())
-                    elif kind == "reusable":
-                        a = dict(op[1])
-                        kw = kwargs()
-                        if a.pop("newinit", False):
-                            kw = {"initializer": simtasks.initializer, "initargs": ((), "tag1")}
-                        ex = RE.get_reusable_executor(max_workers=a.get("max_workers"), timeout=a.get("timeout", 10),
-                                                      kill_workers=a.get("kill_workers", False),
-                                                      reuse=a.get("reuse", "auto"), **kw)
-                        H.ex = ex
-                        out = f"id={ex.executor_id},mw={ex._max_workers},nproc={len(ex._processes)}," \
-                              f"shutdown={ex._flags.shutdown},broken={ex._flags.broken is not None}"
-                        del ex
-                    elif kind == "submit":
-                        k = op[1]
-                        ex = H.ex
-                        if ex is None:
-                            out = "noexec"
-                        else:
-                            spec = tasks[k]
-                            f = ex.submit(simtasks.task, k, spec, simtasks.make_arg(spec.get("args", "ok")))
-                            cb = spec.get("cb")
-                            if cb:
-                                f.add_done_callback(simtasks.cb_raise if cb == "raise" else simtasks.cb_ok)
-                            H.futs[k] = f
-                            del f
-                        del ex
-                    elif kind == "cancel":
-                        f = H.futs.get(op[1])
-                        if f is None:
-                            out = "nofut"
-                        else:
-                            r = f.cancel()
-                            H.cancel_ok[op[1]] = H.cancel_ok.get(op[1], False) or r
-                            out = f"cancel={r}"
-                        del f
-                    elif kind == "shutdown":
-                        ex = H.ex
-                        if ex is None:
-                            out = "noexec"
-                        else:
-                            ex.shutdown(wait=op[1], kill_workers=op[2])
-                        del ex
-                    elif kind == "drop":
-                        H.ex = None
-                    elif kind == "pyexit":
-                        PE._python_exit()
-                    else:
-                        raise RuntimeError("unknown script op " + kind)
-                except BaseException as e:
-                    if isinstance(e, E.ActorKilled):
-                        raise
-                    out = "raise:" + type(e).__name__
-                    if kind == "submit" and isinstance(e, PE._BPPException):
-                        out += ":same" if e is getattr(H, "flags0", None) and False else ""
-                    del e
-                H.api.append((ui, oi, kind, out))
+                E.ENG.op("api", None, f"{op[0]}")
+                out = do_op(ui, op)
+                H.api.append((ui, oi, op[0], out))
         return body
 
     for ui, script in enumerate(scen["users"]):
@@ -361,6 +379,15 @@ def run_scenario(scen, chooser_factory, max_steps=4000, observe=True):
         o["in_body"] = sorted((a.name, a.in_body) for a in eng.actors.values()
                               if getattr(a, "in_body", None) is not None and not a.killed and not a.done)
         o["alive"] = sorted(a.name for a in eng.actors.values() if a.kind == "proc" and a.proc.alive)
+        if exs:
+            e0 = exs[0]
+            b = {None: "-", "TerminatedWorkerError": "t", "BrokenProcessPool": "b"}.get(e0["broken"], "?")
+            o["canon"] = ("futs=[" + ",".join(fut_canon(f, tasks[k]) for k, f in H.by_wid) + "] "
+                          f"sd={str(e0['shutdown']).lower()} br={b} kill={str(bool(e0['kill'])).lower()} nproc={e0['nproc']} "
+                          f"pend={e0['pending']} run={e0['running']} alive=[{','.join(o['alive'])}] "
+                          f"body=[{','.join(f'{n}:{t}' for n, t in o['in_body'])}]")
+        else:
+            o["canon"] = "futs=[] sd=false br=- kill=false nproc=0 pend=0 run=0 alive=[] body=[]"
         return o
 
     if observe:
@@ -393,6 +420,11 @@ def run_scenario(scen, chooser_factory, max_steps=4000, observe=True):
         "procs": {},
         "actors_exc": {a.name: f"{type(a.exc).__name__}: {a.exc}"[:200] for a in eng.actors.values() if a.exc},
         "actors_done": {a.name: a.done for a in eng.actors.values()},
+        # kernel locks whose holder is dead (they stay locked for ever)
+        "dead_holders": {o.label: o.owner.name for o in E._BY_ID.values()
+                         if isinstance(o, E.SimSem) and o.value == 0 and o.owner is not None
+                         and o.owner.kind == "proc" and not o.owner.proc.alive},
+        "dropped": H.ex is None,
     }
     for k, f in H.futs.items():
         r = {"state": fut_obs(f)}
